@@ -407,7 +407,40 @@ func validV1Tokens(kr *keyring) map[string]string {
 }
 
 func checkEnvelope(c *Ctx, kr *keyring) {
+	toks := map[string]string{}
 	for kind, tok := range validTokens(kr) {
+		toks[kind] = tok
+	}
+	// "always": also for claims objects with a history - decoded from a version-1 token (they report version 1),
+	// decoded from a version-2 token, or carrying any version number set by the application
+	signerOf := map[string]string{"operator": "operator", "account": "operator", "user": "account", "activation": "account",
+		"authorization_request": "server", "authorization_response": "account", "generic": "user"}
+	for name, tok := range validV1Tokens(kr) {
+		if d, err := jwt.Decode(tok); err == nil {
+			if t2, err := d.Encode(kr.by[signerOf[dynKind(d)]].kp); err == nil {
+				toks["reencoded "+name] = t2
+			}
+		}
+	}
+	for kind, tok := range validTokens(kr) {
+		d, err := jwt.Decode(tok)
+		if err != nil {
+			continue
+		}
+		for _, v := range []int{0, 1, 2, 3, 7, -1} {
+			setVersion(d, v)
+			if x, ok := d.(*jwt.AuthorizationRequestClaims); ok {
+				x.Version = v
+			}
+			if x, ok := d.(*jwt.AuthorizationResponseClaims); ok {
+				x.Version = v
+			}
+			if t2, err := d.Encode(kr.by[signerOf[dynKind(d)]].kp); err == nil {
+				toks[fmt.Sprintf("%s with version preset to %d", kind, v)] = t2
+			}
+		}
+	}
+	for kind, tok := range toks {
 		c.sum.ImplChecks++
 		c.sum.Evaluations++
 		inp := map[string]interface{}{"direction": "encode", "kind": kind, "token": tok}
@@ -428,7 +461,7 @@ func checkEnvelope(c *Ctx, kr *keyring) {
 			} `json:"nats"`
 		}
 		json.Unmarshal(pj, &p)
-		if kind != "generic_nil_data" && (p.Nats.Version != 2 || p.Type != "") {
+		if !strings.HasPrefix(kind, "generic_nil_data") && (p.Nats.Version != 2 || p.Type != "") {
 			c.violation("C05: Encode did not write version 2 inside the nats section", inp)
 		}
 		c.count("envelope_checked")
